@@ -105,7 +105,7 @@ package bbolt
 //@   returns (sz, canRead, err)
 //@   props C11
 //@   ensures [valid] err == nil ==> metavalid(metaof(lastpage)) && sz == metaof(lastpage).pageSize && canRead
-//@   ensures [probes] err == berrors.ErrInvalid && flen > 16778240 ==> nreads == old(nreads) + 15
+//@   ensures [probes] err == berrors.ErrInvalid && flen > 16778240 && nreads > old(nreads) ==> nreads == old(nreads) + 15
 //@   ensures [noreadnocan] nreads == old(nreads) ==> !canRead
 //@   modifies nreads, lastreadoff, lastpage
 //@   loop 0 invariant 0 <= i && i <= 15 && nreads == old(nreads) + i && fileSize == flen
